@@ -12,6 +12,7 @@ import Dassh.Model.Orifice
 import Dassh.Model.Accept
 import Dassh.Model.Pin
 import Dassh.Model.Regions
+import Dassh.Model.HotspotSort
 
 open Dassh.Model
 
@@ -117,6 +118,11 @@ def handle (line : String) : String :=
       let fuel := Pin.fuelShells qd ts (floatPairs vs)
       "ok " ++ showFloats ([Pin.cladOD cl, Pin.cladMW cl, tid, ts] ++ fuel)
     | _, _ => "bad-op"
+  | "hssort" :: rest =>
+    -- hssort id id ...   (HotspotSort.sortById: pairs id:rowindex)
+    match natList rest with
+    | some ids => "ok " ++ " ".intercalate ((HotspotSort.sortById ids).map fun p => toString p.1 ++ ":" ++ toString p.2)
+    | none => "bad-op"
   | "region" :: rest =>
     -- region bnds... | z...   (Regions.activeRegion for every z)
     let (bs, zs) := splitBar rest
